@@ -161,7 +161,7 @@ theorem step_mu {s s' : State} {e : Ev} (h : Inv s) (hs : step s e = some s')
       | ok => cases hs; rw [mu_done_eq]; exact mu_finish h o hl .delivered _ ⟨rfl, rfl, rfl, rfl, rfl, rfl⟩
       | retriable => cases hs; exact mu_retryOrFail h o (Or.inr hb)
       | fatal => cases hs; rw [mu_done_eq]; exact mu_finish h o hl .errored _ ⟨rfl, rfl, rfl, rfl, rfl, rfl⟩
-      | unprocessable => cases hs; rw [mu_done_eq]; exact mu_finish h o hl .dropped422 _ ⟨rfl, rfl, rfl, rfl, rfl, rfl⟩
+      | unprocessable => cases hs; rw [mu_done_eq]; exact mu_finish h o hl .errored _ ⟨rfl, rfl, rfl, rfl, rfl, rfl⟩
     · cases hs
   | batchEnd o =>
     simp only [step] at hs
